@@ -366,6 +366,11 @@ def value_dependent(A, both, tier):
     """scripts whose hex text could be taken for something else: one-byte pushes of EVERY value (the hex of 0x10..0x16 reads
     as a decimal / ASM short form), two-byte pushes with all-digit hex, the same through PUSHDATA1, inside conditionals"""
     ident = "l:11:32"
+    # each suspicious value alone first, so that a replay is minimal
+    for v in list(range(0x00, 0x17)) + [0x4f, 0x51, 0x60, 0x99, 0xff]:
+        s = "01%02x" % v
+        w = tx_wire(1, [(ident, 0, s, 0)], [(1, s)], 0)
+        both(w, "1." + s); A("txin.cbor_roundtrip", w, "1." + s, 0); A("bits.json_roundtrip", "p%02x" % v); A("bits.cbor_roundtrip", "p%02x" % v)
     for c in range(8):
         vals = range(32 * c, 32 * c + 32)
         s = "".join("01%02x" % v for v in vals)
@@ -381,11 +386,6 @@ def value_dependent(A, both, tier):
         A("bits.json_roundtrip", bcb)
         s3 = "".join("4c01%02x" % v for v in vals)
         both(tx_wire(1, [(ident, 0, s3, 0)], [(0, s3)], 0), "-")
-    # each suspicious value also alone, so that a replay is minimal
-    for v in list(range(0x00, 0x17)) + [0x4f, 0x51, 0x60, 0x99, 0xff]:
-        s = "01%02x" % v
-        w = tx_wire(1, [(ident, 0, s, 0)], [(1, s)], 0)
-        both(w, "1." + s); A("txin.cbor_roundtrip", w, "1." + s, 0); A("bits.json_roundtrip", "p%02x" % v); A("bits.cbor_roundtrip", "p%02x" % v)
     two = ["0000", "0001", "0010", "0016", "0100", "1000", "1234", "1600", "1616", "9999", "0099", "4f50"]
     s = "".join("02" + t for t in two) + "03000010" + "03123456" + "0400000016"
     w = tx_wire(1, [(ident, 0, s, 0)], [(1, s)], 0)
